@@ -635,7 +635,11 @@ def _rt_chunk(items):
                 end = stream.tell()
                 got = P.sa_attr("dumps")()
                 again = oe.ref(pk).sa_attr("load")(data).sa_attr("dumps")()  # from a byte string
-                out.append(("ok", got, end, again))
+                # a seekable stream that is not a BytesIO (what an opened file is): same bytes out, stream left at the end
+                fstream = io.BufferedReader(io.BytesIO(data + b"TRAILING"))
+                fgot = oe.ref(pk).sa_attr("load")(fstream).sa_attr("dumps")()
+                fend = fstream.tell()
+                out.append(("ok", got, end, again, fgot, fend))
             else:
                 whole = b"".join(parts)
                 stream = io.BytesIO(whole)
@@ -678,13 +682,33 @@ def check_round_trip(repo: Repo, rep: Report, tier: str):
     corpus = _corpus(tier)
     items = [("single", label, [data]) for label, data in corpus]
     _RT_REPO = repo
-    jobs = min(16, os.cpu_count() or 1)
+    jobs = min(int(os.environ.get("SA_JOBS", "16")), os.cpu_count() or 1)
     chunks = [items[i::jobs] for i in range(jobs)]
-    try:
-        with ProcessPoolExecutor(max_workers=jobs, mp_context=mp.get_context("fork")) as ex:
-            parts = list(ex.map(_rt_chunk, chunks))
-    except (OSError, RuntimeError):
-        parts = [_rt_chunk(c) for c in chunks]
+    from pathlib import Path
+
+    from ..cache import cached, digest
+
+    def enc(parts_):
+        return [[[("b:" + x.hex()) if isinstance(x, bytes) else [("b:" + y.hex()) if isinstance(y, bytes) else y for y in x] if isinstance(x, list) else x for x in o] for o in outs] for outs in parts_]
+
+    def dec(parts_):
+        def d(x):
+            if isinstance(x, str) and x.startswith("b:"):
+                return bytes.fromhex(x[2:])
+            if isinstance(x, list):
+                return [d(y) for y in x]
+            return x
+        return [[tuple(d(x) for x in o) for o in outs] for outs in parts_]
+
+    def run_chunks(chs):
+        try:
+            with ProcessPoolExecutor(max_workers=jobs, mp_context=mp.get_context("fork")) as ex:
+                return list(ex.map(_rt_chunk, chs))
+        except (OSError, RuntimeError):
+            return [_rt_chunk(c) for c in chs]
+
+    ckey = digest(repo, ["fickling.fickle"], f"{tier}|{jobs}", [Path(__file__)])
+    parts = dec(cached("c06rt-singles-" + ckey, lambda: enc(run_chunks(chunks))))
     bad: Dict[str, Tuple[int, str]] = {}
 
     def note(key, msg):
@@ -704,7 +728,9 @@ def check_round_trip(repo: Repo, rep: Report, tier: str):
                 else:
                     note(f"valid-pickle-refused:{o[1]}", f"Pickled.load raises {o[1]} on {label} ({data[:24]!r}...), a stream CPython's own reader accepts and every opcode of which fickling implements")
                 continue
-            _, got, end, again = o
+            _, got, end, again, fgot, fend = o
+            if got == data and again == data and end == len(data) and (fgot != data or fend != len(data)):
+                note("file-like-stream", f"from a seekable stream that is not a BytesIO (an opened file), Pickled.load {'re-serialises differently' if fgot != data else f'leaves the stream at offset {fend} instead of the end of the pickle ({len(data)}): what follows the pickle in the caller' + chr(39) + 's file is consumed'} for {label}")
             if got != data:
                 note(f"not-byte-exact:{_first_diff_opcode(data, got)}", f"Pickled.load(<stream>).dumps() differs from the input for {label}: first difference in opcode {_first_diff_opcode(data, got)} (input {data[:32]!r}..., output {got[:32]!r}...)")
             elif again != data:
@@ -720,11 +746,7 @@ def check_round_trip(repo: Repo, rep: Report, tier: str):
         stacks.append(parsed[: min(len(parsed), 40)])
     sitems = [("stack", " + ".join(l for l, _ in st)[:160], [d for _, d in st]) for st in stacks]
     schunks = [sitems[i::jobs] for i in range(jobs)]
-    try:
-        with ProcessPoolExecutor(max_workers=jobs, mp_context=mp.get_context("fork")) as ex:
-            sparts = list(ex.map(_rt_chunk, schunks))
-    except (OSError, RuntimeError):
-        sparts = [_rt_chunk(c) for c in schunks]
+    sparts = dec(cached("c06rt-stacks-" + ckey, lambda: enc(run_chunks(schunks))))
     n_stacks = 0
     for chunk, outs in zip(schunks, sparts):
         for (kind, label, ps), o in zip(chunk, outs):
